@@ -129,6 +129,7 @@ def run_sim(
     max_stall=0.0,
     stall_budget=0.0,
     lines=False,
+    creep=False,
 ):
     """Run fn() as thread 0 of a fresh simulation under the schedule `sched` (JSON-able dict)."""
     from . import linemon
@@ -140,6 +141,7 @@ def run_sim(
         on_step=on_step,
         max_stall=max_stall,
         stall_budget=stall_budget,
+        creep=creep,
     )
     gc_was = gc.isenabled()
     gc.disable()
